@@ -4,14 +4,19 @@ The real `testtools.twistedsupport._spinner.Spinner` is driven on the virtual-ti
 `harness/vreactor.py` through a *history* of steps on one reactor and one Spinner object.
 
 Input : [debug, [step, ...]]
-  step = ['run', T, [[delay, act], ...]   calls scheduled before spinner.run() (they precede the timeout call)
+  step = ['run', T, [[delay, act], ...]   calls scheduled before spinner.run() (they precede the timeout call)   [+ , n] see below
                  , [op, ...]              what f does, in order: ['later', delay, act] | ['now', act]
                  , term]                  ['ret', v] | ['raise', e] | 'deferred' (f returns the scenario's Deferred)
+                 [, n]]                   optional: Spinner._OBLIGATORY_REACTOR_ITERATIONS for this run (default 0)
        | 'clear'                          spinner.clear_junk()
        | ['setsig', s, h]                 between two calls the process installs handler h for SIGNALS[s]
        | 'swap'                           from now on the calls go to the other of two Spinner objects on the same reactor
   T    = n | 'neg'                        'neg': a negative timeout - reactor.callLater raises, run() raises before its try/finally
   act  = ['fire', v] | ['fail', e] | 'stop' | 'noop' | 'addsel' | ['setsig', s, h] | ['reenter', fresh]
+       | ['spawn', d, child]                       a delayed call that schedules `callLater(d, child)` when it runs; child = 'noop' | 'addsel' |
+                                                   ['spawn', d, child]; the child's label = the parent's + len(pre) + len(body).  Only in runs whose f
+                                                   returns / raises synchronously (the loop does not iterate; the call can only be run by the obligatory
+                                                   iterations of _clean) and only as a delayed call
        | ['fireold', k, v] | ['failold', k, e]     fire / fail the Deferred of the run k runs earlier (of either Spinner): a Deferred
                                                    that outlived its run (timeout, interrupt) and fires during a later one
   v    = a value token: VALUES[v] for v < len(VALUES) (objects with a hostile ==, falsy-but-valid values), else the int v.
@@ -132,6 +137,21 @@ class C15(Prop):
             'thorough adds (signal x handler) x rejected call x (signal x handler) x 6 kinds of next run. 13 scenarios on the REAL Twisted '
             'reactor (feature reactor:real) come first in the thorough enumeration, 5 of them are part of every quick run')
     assumptions = [
+        'translator tie: harness/pyspinner2lean.py re-reads Spinner.run (ordered skeleton incl. the per-run token and the finally '
+        'ladder), run_function, _got_success/_got_failure/_stop_reactor/_timed_out/_fake_stop/_cancel_timeout, the arms of _get_result, '
+        '_clean, _OBLIGATORY_REACTOR_ITERATIONS and (as shapes) _save_signals/_restore_signals/not_reentrant/trap_unhandled_errors as data; '
+        'TTV.SpinnerSkel gives the data its meaning, C15_src_* prove the model is that interpretation (trusted: the recogniser, and that '
+        'the interpreter reads the recognised statement forms as Python does); unrecognised statements become .unknown',
+        '_OBLIGATORY_REACTOR_ITERATIONS is a per-run input (0-3). `spawn` actions (a delayed call that schedules another one - chains up to '
+        'depth 4, also registering selectables) are generated, and accepted by the decoder, only in runs whose f returns / raises '
+        'synchronously and only as delayed calls: the loop of reactor.run() then does not iterate, so such a call can only be run by '
+        '_clean\'s obligatory iterations, where the model gives it its meaning (batch semantics per iteration: what an iteration schedules '
+        'waits for the next). Inside the loop a call that schedules calls would need the iteration semantics in the loop model as well '
+        '(C14 has it); not modelled for C15. During the iterations the callbacks of the run are dead (fire / fail are inert)',
+        'with obligatory iterations a leftover that installs a signal handler is run AFTER _restore_signals: the clauses clean / signals '
+        'exempt exactly the runs with _OBLIGATORY_REACTOR_ITERATIONS > 0 whose scenario contains a handler-installing call (lateHandler); '
+        'the exact junk accounting (clause junk, C15_junk_exact) is stated for 0 iterations - with more, nothing-pending / no-selectables '
+        '(clause clean), the re-entry accounting, boundedness and the differential check cover the iterations',
         'LIMIT OF THE MODEL (audit C15 v3): an interrupt is "reactor.stop() requested at an instant of virtual time", executed as a '
         'delayed call of the reactor. The runtime behaviour it cannot exhibit: a real SIGINT/SIGTERM whose Twisted handler queues '
         'reactor.callFromThread(reactor.stop) (a) in the very reactor iteration in which the run ends - the queued _fake_stop stays in '
@@ -207,7 +227,9 @@ class C15(Prop):
                 '/-- `Spinner._PRESERVED_SIGNALS` -/\n'
                 'def preservedSignals : List String := [%s]\n\n'
                 'end TTV.Generated.C15\n' % ', '.join('"%s"' % n for n in names))
-        return {'TTV/Generated/C15.lean': text}
+        # tie 2 (translator): Spinner.run, its callbacks, _get_result, _clean, the signal helpers, not_reentrant, trap_unhandled_errors
+        from harness import pyspinner2lean
+        return {'TTV/Generated/C15.lean': text, 'TTV/Generated/SpinnerSkel.lean': pyspinner2lean.generate(repo)}
 
     # ----- implementation side
     def run_impl(self, inp):
@@ -304,7 +326,10 @@ class C15(Prop):
                 signal.signal(getattr(signal, SIGNALS[step[1]]), HANDLERS[step[1]][step[2]])
                 trace.append(['sigs', self._cur_sigs()])
                 continue
-            _, T, pre, body, term = step
+            _, T, pre, body, term = step[:5]
+            oblig = step[5] if len(step) > 5 else 0
+            sp._OBLIGATORY_REACTOR_ITERATIONS = oblig      # (the class attribute, per run)
+            n_labels = len(pre) + len(body)
             bad = T == 'neg'
             T = 0 if bad else T
             d = defer.Deferred()
@@ -350,6 +375,10 @@ class C15(Prop):
                     def go():
                         if a[1] < len(SIGNALS):
                             signal.signal(getattr(signal, SIGNALS[a[1]]), HANDLERS[a[1]][a[2]])
+                elif kind == 'spawn':
+                    # a delayed call that schedules another one when it runs; the child's label is the parent's + the number of labels
+                    def go():
+                        later(a[1], l + n_labels, a[2], (nominal.get(l, 0) + a[1]))
                 elif kind == 'reenter':
                     def go():
                         inner = S.Spinner(r) if a[1] else sp
@@ -364,12 +393,15 @@ class C15(Prop):
                     raise ValueError(a)
                 return go
 
-            def later(delay, l, a):
+            nominal = {}        # label -> nominal instant (since the start of the run) of the call
+
+            def later(delay, l, a, at=None):
                 go = act(l, a)
+                nominal[l] = delay if at is None else at
                 if real:
-                    def go(go=go):
-                        arrived(delay)
-                        real_events.append([delay, l])
+                    def go(go=go, at=nominal[l]):
+                        arrived(at)
+                        real_events.append([at, l])
                         go()
                 dc = r.callLater(delay * scale, go)
                 label[id(dc)] = l
@@ -466,6 +498,8 @@ class C15(Prop):
                                              ['later', 4, ['fire', 4]]], 'deferred']], False),
         ('scheduled-before-run', [['run', 6, [[2, ['fire', 1]]], [['later', 4, 'noop']], 'deferred'], 'clear'], False),
         ('fires-after-timeout', [['run', 2, [], [['later', 5, ['fire', 9]]], 'deferred'], 'clear'], True),
+        ('obligatory-iterations-run-a-chain', [['run', 4, [], [['later', 0, ['spawn', 50, 'noop']], ['later', 0, ['spawn', 60, 'addsel']]], ['ret', 1], 2],
+                                               'clear', ['run', 6, [], [['later', 2, ['fire', 5]]], 'deferred', 2]], False),
         ('rejected-timeout-then-run', [['setsig', 0, 1], ['run', 'neg', [[2, 'noop']], [], ['ret', 0]], ['setsig', 0, 2], ['setsig', 1, 3],
                                        ['run', 6, [], [['later', 2, ['fire', 5]]], 'deferred']], False),
     ]
@@ -474,7 +508,23 @@ class C15(Prop):
         return [[False, steps, 'real'] for _, steps, quick in self.REAL if quick or not quick_only]
 
     def corpus(self):
-        return Prop.corpus(self) + self.real_inputs(True) + self.value_grid() + self.late_grid()
+        return Prop.corpus(self) + self.real_inputs(True) + self.value_grid() + self.late_grid() + self.oblig_grid()
+
+    def oblig_grid(self):
+        """_OBLIGATORY_REACTOR_ITERATIONS = 0..3 x leftovers of a run whose f returns at once (the loop does not iterate, so what f scheduled is
+        still there): calls that are due (run by the iterations) or not, that schedule further calls (chains, due in the next iteration or
+        never) or register selectables - afterwards nothing may be pending, and the next run must not see anything of it"""
+        out = []
+        chains = [['spawn', 0, ['spawn', 0, 'noop']], ['spawn', 5, 'noop'], ['spawn', 0, 'addsel'], ['spawn', 0, ['spawn', 3, 'addsel']],
+                  ['spawn', 1, ['spawn', 0, ['spawn', 0, 'noop']]], 'addsel', 'noop']
+        for n in range(4):
+            for c in chains:
+                for d in (0, 1):
+                    for term in (['ret', 3], ['raise', 1]):
+                        out.append([False, [['run', 4, [], [['later', d, c], ['later', 0, 'noop']], term, n], 'clear', ['run', 2, [], [], ['ret', 9]]]])
+                out.append([False, [['run', 4, [[0, c]], [['later', 0, c]], ['ret', 3], n], 'clear', ['run', 2, [], [['later', 1, ['fire', 4]]], 'deferred', n]]])
+            out.append([False, [['run', 3, [], [['later', 1, ['fire', 2]], ['later', 5, 'noop']], 'deferred', n], 'clear', ['run', 2, [[1, 'stop']], [], 'deferred', n]]])
+        return out
 
     def late_grid(self):
         """a Deferred that outlived its run fires / fails during a later run: first run (times out | is interrupted | times out and the
@@ -580,8 +630,42 @@ class C15(Prop):
                 steps.append('swap')
         return [rng.random() < 0.2, steps]
 
+    def gen_child(self, rng, depth=0):
+        k = rng.random()
+        if depth >= 3 or k < 0.35:
+            return 'noop'
+        if k < 0.5:
+            return 'addsel'
+        return ['spawn', rng.choice([0, 0, 0, 1, 3]), self.gen_child(rng, depth + 1)]
+
+    def gen_oblig(self, rng):
+        """runs with _OBLIGATORY_REACTOR_ITERATIONS 0-3; most of them return / raise at once and leave delayed calls behind, some of which
+        schedule further calls when they run"""
+        steps = []
+        for _ in range(rng.choice([1, 2, 2, 3])):
+            n = rng.choice([0, 1, 1, 2, 2, 3])
+            if rng.random() < 0.65:
+                def left():
+                    k = rng.random()
+                    return ['spawn', rng.choice([0, 0, 1, 3]), self.gen_child(rng)] if k < 0.55 else 'noop' if k < 0.7 else 'addsel' if k < 0.8 \
+                        else ['reenter', rng.random() < 0.5] if k < 0.87 else ['setsig', rng.randrange(4), rng.randrange(1, NH)] if k < 0.92 \
+                        else 'stop' if k < 0.96 else ['fire', rng.randrange(len(VALUES) + 3)]
+                T = rng.choice([0, 1, 2, 4])
+                pre = [[rng.choice([0, 0, 1, 2]), left()] for _ in range(rng.choice([0, 0, 1]))]
+                body = [['later', rng.choice([0, 0, 0, 1, 2, T]), left()] for _ in range(rng.choice([1, 1, 2, 3]))]
+                term = ['ret', rng.randrange(len(VALUES) + 3)] if rng.random() < 0.7 else ['raise', rng.randrange(4)]
+                steps.append(['run', T, pre, body, term, n])
+            else:
+                steps.append(self.gen_scen(rng) + [n])
+            if rng.random() < 0.85:
+                steps.append('clear')
+        return [rng.random() < 0.2, steps]
+
     def gen(self, rng, tier):
-        if rng.random() < 0.2:
+        r0 = rng.random()
+        if r0 < 0.12:
+            return self.gen_oblig(rng)
+        if r0 < 0.3:
             return self.gen_late(rng)
         n = rng.choice([1, 1, 1, 2, 2, 3, 4])
         steps = []
@@ -690,6 +774,9 @@ class C15(Prop):
             if isinstance(res, list) and res[0] == 'value' and isinstance(res[1], int):
                 f.append('value:' + (VALUE_NAMES[res[1]] if res[1] < len(VALUES) else 'int'))
             f.append('term:' + (sc[4] if isinstance(sc[4], str) else sc[4][0]))
+            f.append('obligatory-iterations=%d' % (sc[5] if len(sc) > 5 else 0))
+            if len(sc) > 5 and sc[5] > 0 and any(isinstance(e[1], int) and e[1] >= len(sc[2]) + len(sc[3]) for e in o[2]):
+                f.append('call-scheduled-during-obligatory-iterations-ran')
             T = 0 if sc[1] == 'neg' else sc[1]
             delayed = [(d, a, 'pre') for d, a in sc[2]] + [(op[1], op[2], 'body') for op in sc[3] if op[0] == 'later']
             for d, a, where in delayed:
@@ -698,7 +785,7 @@ class C15(Prop):
                     f.append('%s-%s-%s' % (k if k == 'stop' else 'fire', where, 'before' if d < T else 'at' if d == T else 'after') + '-timeout')
             for a in self._acts(sc):
                 k = a if isinstance(a, str) else a[0]
-                if k in ('addsel', 'setsig', 'reenter', 'fireold', 'failold'):
+                if k in ('addsel', 'setsig', 'reenter', 'fireold', 'failold', 'spawn'):
                     f.append('act:' + k)
             for op in sc[3]:
                 if op[0] == 'now':
@@ -733,33 +820,36 @@ class C15(Prop):
                 if s[1] > 0:
                     yield put(['setsig', s[1] - 1, s[2]])
                 continue
-            _, T, pre, body, term = s
+            _, T, pre, body, term = s[:5]
+            tail_n = s[5:]
+            if tail_n and tail_n[0] > 0:
+                yield put(s[:5] + [tail_n[0] - 1])
             if T == 'neg':
                 for j in range(len(pre)):
-                    yield put(['run', T, pre[:j] + pre[j + 1:], body, term])
+                    yield put(['run', T, pre[:j] + pre[j + 1:], body, term] + tail_n)
                 if body:
-                    yield put(['run', T, pre, [], term])
+                    yield put(['run', T, pre, [], term] + tail_n)
                 if term != ['ret', 0]:
-                    yield put(['run', T, pre, body, ['ret', 0]])
+                    yield put(['run', T, pre, body, ['ret', 0]] + tail_n)
                 continue
             for j in range(len(pre)):
-                yield put(['run', T, pre[:j] + pre[j + 1:], body, term])
+                yield put(['run', T, pre[:j] + pre[j + 1:], body, term] + tail_n)
             for j in range(len(body)):
-                yield put(['run', T, pre, body[:j] + body[j + 1:], term])
+                yield put(['run', T, pre, body[:j] + body[j + 1:], term] + tail_n)
             if T > 0:
-                yield put(['run', T - 1, pre, body, term])
+                yield put(['run', T - 1, pre, body, term] + tail_n)
             for j, (d, a) in enumerate(pre):
                 if d > 0:
-                    yield put(['run', T, pre[:j] + [[d - 1, a]] + pre[j + 1:], body, term])
+                    yield put(['run', T, pre[:j] + [[d - 1, a]] + pre[j + 1:], body, term] + tail_n)
                 if a != 'noop':
-                    yield put(['run', T, pre[:j] + [[d, 'noop']] + pre[j + 1:], body, term])
+                    yield put(['run', T, pre[:j] + [[d, 'noop']] + pre[j + 1:], body, term] + tail_n)
             for j, op in enumerate(body):
                 if op[0] == 'later' and op[1] > 0:
-                    yield put(['run', T, pre, body[:j] + [['later', op[1] - 1, op[2]]] + body[j + 1:], term])
+                    yield put(['run', T, pre, body[:j] + [['later', op[1] - 1, op[2]]] + body[j + 1:], term] + tail_n)
                 if op[-1] != 'noop':
-                    yield put(['run', T, pre, body[:j] + [op[:-1] + ['noop']] + body[j + 1:], term])
+                    yield put(['run', T, pre, body[:j] + [op[:-1] + ['noop']] + body[j + 1:], term] + tail_n)
             if term != ['ret', 0]:
-                yield put(['run', T, pre, body, ['ret', 0]])
+                yield put(['run', T, pre, body, ['ret', 0]] + tail_n)
 
 
 PROP = C15()
